@@ -1,6 +1,7 @@
 package gose
 
 import (
+	"unicode"
 	"crypto/sha1"
 	"encoding/hex"
 	"fmt"
@@ -322,7 +323,8 @@ func init() {
 			return strings.Contains(s, p)
 		}
 		if !pok {
-			m.unsupported("strings.Contains with symbolic needle")
+			c := m.C
+			return m.normBool(c.Not(c.Eq(c.IndexOfSym(m.strTerm(a[0]), m.strTerm(a[1])), c.BV(sym.LW, 1<<sym.LW-1))))
 		}
 		return m.normBool(m.C.Contains(m.strTerm(a[0]), p))
 	})
@@ -333,7 +335,7 @@ func init() {
 			return int64(strings.Index(s, p))
 		}
 		if !pok {
-			m.unsupported("strings.Index with symbolic needle")
+			return m.normScalar(m.C.Sext(m.C.IndexOfSym(m.strTerm(a[0]), m.strTerm(a[1])), 32))
 		}
 		return m.C.Sext(m.C.IndexOf(m.strTerm(a[0]), p), 32)
 	})
@@ -344,7 +346,7 @@ func init() {
 			return int64(strings.LastIndex(s, p))
 		}
 		if !pok {
-			m.unsupported("strings.LastIndex with symbolic needle")
+			return m.normScalar(m.C.Sext(m.C.LastIndexOfSym(m.strTerm(a[0]), m.strTerm(a[1])), 32))
 		}
 		return m.C.Sext(m.C.LastIndexOf(m.strTerm(a[0]), p), 32)
 	})
@@ -402,6 +404,11 @@ func init() {
 		return strings.TrimSpace(m.mustStr(a[0], "strings.TrimSpace"))
 	})
 	reg("strings.Count", func(m *Machine, fn *ssa.Function, a []Value) Value {
+		if _, ok := m.str(a[0]); !ok {
+			if p, pok := m.str(a[1]); pok && len(p) == 1 {
+				return intrinsics["internal/bytealg.CountString"](m, fn, []Value{a[0], int64(p[0])})
+			}
+		}
 		return int64(strings.Count(m.mustStr(a[0], "strings.Count"), m.mustStr(a[1], "strings.Count")))
 	})
 	reg("strings.Repeat", func(m *Machine, fn *ssa.Function, a []Value) Value {
@@ -572,8 +579,47 @@ func init() {
 		return m.sprintf(f, args)
 	})
 	reg("fmt.Errorf", func(m *Machine, fn *ssa.Function, a []Value) Value {
-		s, _ := m.str(m.sprintfLoose(m.mustStr(a[0], "Errorf format"), variadic(a[1])))
-		return m.errVal("generic", s)
+		format := m.mustStr(a[0], "Errorf format")
+		args := variadic(a[1])
+		// %w: the operand is the wrapped error (errors.Is / errors.Unwrap / errors.As see it)
+		var wrapped Value
+		if strings.Contains(format, "%w") {
+			verbs := 0
+			for i := 0; i+1 < len(format); i++ {
+				if format[i] == '%' {
+					if format[i+1] == '%' {
+						i++
+						continue
+					}
+					j := i + 1
+					for j < len(format) && strings.IndexByte("+-# 0123456789.", format[j]) >= 0 {
+						j++
+					}
+					if j < len(format) && format[j] == 'w' && verbs < len(args) {
+						wrapped = args[verbs]
+					}
+					verbs++
+					i = j
+				}
+			}
+			format = strings.ReplaceAll(format, "%w", "%v")
+		}
+		s, _ := m.str(m.sprintfLoose(format, args))
+		e := m.errVal("generic", s)
+		if wrapped != nil {
+			e.V.(*Ext).F["wrapped"] = wrapped
+		}
+		return e
+	})
+	reg("errors.Unwrap", func(m *Machine, fn *ssa.Function, a []Value) Value {
+		if i, ok := a[0].(Iface); ok && i.T != nil {
+			if e, ok := i.V.(*Ext); ok && e != nil {
+				if w, ok := e.F["wrapped"]; ok {
+					return w
+				}
+			}
+		}
+		return Iface{}
 	})
 	for _, n := range []string{"fmt.Println", "fmt.Printf", "fmt.Print", "fmt.Fprintf", "fmt.Fprintln", "fmt.Fprint"} {
 		reg(n, func(m *Machine, fn *ssa.Function, a []Value) Value { return Tuple{int64(0), nilErr()} })
@@ -764,6 +810,14 @@ func init() {
 func init() {
 	// assembly-backed helpers of internal/bytealg (concrete arguments only)
 	reg("internal/bytealg.IndexByteString", func(m *Machine, fn *ssa.Function, a []Value) Value {
+		if _, ok := m.str(a[0]); !ok {
+			if b, isC := a[1].(int64); isC {
+				return m.normScalar(m.C.Sext(m.C.IndexOf(m.strTerm(a[0]), string([]byte{byte(b)})), 32))
+			}
+		}
+		if bt, isT := a[1].(*sym.Term); isT {
+			return m.normScalar(m.C.Sext(m.C.IndexOfCh(m.strTerm(a[0]), bt), 32))
+		}
 		return int64(strings.IndexByte(m.mustStr(a[0], "IndexByteString"), byte(m.toInt(a[1]))))
 	})
 	reg("internal/bytealg.CountString", func(m *Machine, fn *ssa.Function, a []Value) Value {
@@ -771,10 +825,10 @@ func init() {
 			if b, isC := a[1].(int64); isC {
 				st := m.strTerm(a[0])
 				c := m.C
-				acc := c.BV(64, 0)
+				acc := c.BV(32, 0)
 				for i, ch := range st.Ch {
 					hit := c.And(c.Ult(c.L(i), st.Len), c.Eq(ch, c.BV(8, uint64(byte(b)))))
-					acc = c.Add(acc, c.Ite(hit, c.BV(64, 1), c.BV(64, 0)))
+					acc = c.Add(acc, c.Ite(hit, c.BV(32, 1), c.BV(32, 0)))
 				}
 				return m.normScalar(acc)
 			}
@@ -782,9 +836,22 @@ func init() {
 		return int64(strings.Count(m.mustStr(a[0], "CountString"), string([]byte{byte(m.toInt(a[1]))})))
 	})
 	reg("internal/bytealg.IndexString", func(m *Machine, fn *ssa.Function, a []Value) Value {
+		if _, ok := m.str(a[0]); !ok {
+			if p, pok := m.str(a[1]); pok {
+				return m.normScalar(m.C.Sext(m.C.IndexOf(m.strTerm(a[0]), p), 32))
+			}
+		}
+		if _, pok := m.str(a[1]); !pok {
+			return m.normScalar(m.C.Sext(m.C.IndexOfSym(m.strTerm(a[0]), m.strTerm(a[1])), 32))
+		}
 		return int64(strings.Index(m.mustStr(a[0], "IndexString"), m.mustStr(a[1], "IndexString")))
 	})
 	reg("internal/bytealg.LastIndexByteString", func(m *Machine, fn *ssa.Function, a []Value) Value {
+		if _, ok := m.str(a[0]); !ok {
+			if b, isC := a[1].(int64); isC {
+				return m.normScalar(m.C.Sext(m.C.LastIndexOf(m.strTerm(a[0]), string([]byte{byte(b)})), 32))
+			}
+		}
 		return int64(strings.LastIndexByte(m.mustStr(a[0], "LastIndexByteString"), byte(m.toInt(a[1]))))
 	})
 	reg("strings.IndexByte", func(m *Machine, fn *ssa.Function, a []Value) Value {
@@ -795,14 +862,14 @@ func init() {
 		}
 		b, ok := a[1].(int64)
 		if !ok {
-			m.unsupported("strings.IndexByte with symbolic byte")
+			return m.normScalar(m.C.Sext(m.C.IndexOfCh(m.strTerm(a[0]), m.intTerm(a[1], types.Typ[types.Uint8])), 32))
 		}
 		return m.C.Sext(m.C.IndexOf(m.strTerm(a[0]), string([]byte{byte(b)})), 32)
 	})
 	reg("strings.LastIndexByte", func(m *Machine, fn *ssa.Function, a []Value) Value {
 		b, ok := a[1].(int64)
 		if !ok {
-			m.unsupported("strings.LastIndexByte with symbolic byte")
+			return m.normScalar(m.C.Sext(m.C.LastIndexOfCh(m.strTerm(a[0]), m.intTerm(a[1], types.Typ[types.Uint8])), 32))
 		}
 		if s, ok := m.str(a[0]); ok {
 			return int64(strings.LastIndexByte(s, byte(b)))
@@ -974,7 +1041,41 @@ func (m *Machine) extMethod(e *Ext, name string, args []Value) Value {
 		case "Name":
 			return e.F["name"]
 		case "Size":
+			if n, ok := e.F["node"].(*Node); ok && n != nil && n.C != nil {
+				d := n.C.Data
+				if ls, isL := d.(*Lines); isL {
+					if s, ok := m.linesToData(ls); ok {
+						d = s
+					}
+				}
+				switch x := d.(type) {
+				case string:
+					return int64(len(x))
+				case *sym.Str:
+					return m.normScalar(m.C.Zext(x.Len, 64))
+				}
+			}
 			return int64(1)
+		case "Mode", "Type":
+			if b, _ := e.F["isdir"].(bool); b {
+				return int64(1<<31 | 0755)
+			}
+			if n, ok := e.F["node"].(*Node); ok && n != nil && n.Kind == KFifo {
+				return int64(1<<25 | 0644)
+			}
+			if name == "Type" {
+				return int64(0)
+			}
+			return int64(0644)
+		case "ModTime":
+			if n, ok := e.F["node"].(*Node); ok && n != nil && n.MTime != nil {
+				return Struct{int64(0), n.MTime, (*Value)(nil)}
+			}
+			return Struct{int64(0), int64(0), (*Value)(nil)}
+		case "Sys":
+			return Iface{}
+		case "Info":
+			return Tuple{Iface{T: m.extType("fileinfo"), V: e}, nilErr()}
 		}
 	}
 	m.unsupported("method %s on modelled object %s", name, e.Kind)
@@ -1011,4 +1112,125 @@ func (m *Machine) symSplit(s *sym.Str, sep string) Value {
 	}
 	parts = append(parts, sub(start, n))
 	return parts
+}
+
+func init() {
+	// sets of bytes / runes (ASCII), comparison
+	anyIdx := func(last bool) intrinsic {
+		return func(m *Machine, fn *ssa.Function, a []Value) Value {
+			s, sok := m.str(a[0])
+			set, pok := m.str(a[1])
+			if sok && pok {
+				if last {
+					return int64(strings.LastIndexAny(s, set))
+				}
+				return int64(strings.IndexAny(s, set))
+			}
+			if !pok {
+				m.unsupported("strings.IndexAny with a symbolic set")
+			}
+			for i := 0; i < len(set); i++ {
+				if set[i] >= 0x80 {
+					m.unsupported("strings.IndexAny with a non-ASCII set")
+				}
+			}
+			if last {
+				return m.normScalar(m.C.Sext(m.C.LastIndexAnyOf(m.strTerm(a[0]), set), 32))
+			}
+			return m.normScalar(m.C.Sext(m.C.IndexAnyOf(m.strTerm(a[0]), set), 32))
+		}
+	}
+	reg("strings.IndexAny", anyIdx(false))
+	reg("strings.LastIndexAny", anyIdx(true))
+	reg("strings.ContainsAny", func(m *Machine, fn *ssa.Function, a []Value) Value {
+		r := anyIdx(false)(m, fn, a)
+		if i, ok := r.(int64); ok {
+			return i >= 0
+		}
+		return m.normBool(m.C.Not(m.C.Eq(r.(*sym.Term), m.C.BV(32, 0xffffffff))))
+	})
+	runeIdx := func(m *Machine, fn *ssa.Function, a []Value) Value {
+		r, ok := a[1].(int64)
+		if !ok || r < 0 || r >= 0x80 {
+			m.unsupported("strings.IndexRune with a symbolic or non-ASCII rune")
+		}
+		if s, sok := m.str(a[0]); sok {
+			return int64(strings.IndexRune(s, rune(r)))
+		}
+		return m.normScalar(m.C.Sext(m.C.IndexOf(m.strTerm(a[0]), string([]byte{byte(r)})), 32))
+	}
+	reg("strings.IndexRune", runeIdx)
+	reg("strings.ContainsRune", func(m *Machine, fn *ssa.Function, a []Value) Value {
+		r := runeIdx(m, fn, a)
+		if i, ok := r.(int64); ok {
+			return i >= 0
+		}
+		return m.normBool(m.C.Not(m.C.Eq(r.(*sym.Term), m.C.BV(32, 0xffffffff))))
+	})
+	cmp := func(m *Machine, fn *ssa.Function, a []Value) Value {
+		x, xok := m.str(a[0])
+		y, yok := m.str(a[1])
+		if xok && yok {
+			return int64(strings.Compare(x, y))
+		}
+		c := m.C
+		xs, ys := m.strTerm(a[0]), m.strTerm(a[1])
+		return m.normScalar(c.Ite(c.StrLess(xs, ys), c.BV(32, 0xffffffff), c.Ite(c.StrEq(xs, ys), c.BV(32, 0), c.BV(32, 1))))
+	}
+	reg("strings.Compare", cmp)
+	reg("internal/bytealg.CompareString", cmp)
+	reg("internal/bytealg.abigen_runtime_cmpstring", cmp)
+
+	// unicode predicates on (possibly symbolic) ASCII runes
+	type upred struct {
+		name string
+		f    func(rune) bool
+	}
+	for _, u := range []upred{{"IsUpper", unicode.IsUpper}, {"IsLower", unicode.IsLower}, {"IsLetter", unicode.IsLetter},
+		{"IsDigit", unicode.IsDigit}, {"IsNumber", unicode.IsNumber}, {"IsSpace", unicode.IsSpace}, {"IsPunct", unicode.IsPunct},
+		{"IsControl", unicode.IsControl}, {"IsPrint", unicode.IsPrint}, {"IsGraphic", unicode.IsGraphic}, {"IsSymbol", unicode.IsSymbol}} {
+		u := u
+		reg("unicode."+u.name, func(m *Machine, fn *ssa.Function, a []Value) Value {
+			if r, ok := a[0].(int64); ok {
+				return u.f(rune(r))
+			}
+			rt := a[0].(*sym.Term)
+			c := m.C
+			// ASCII only: the rune comes from a symbolic string (a zero-extended byte < 0x80)
+			if !m.provable(c.Ult(rt, c.BV(rt.Width, 0x80))) {
+				m.unsupported("unicode.%s of a symbolic rune that may be >= 0x80", u.name)
+			}
+			acc := c.F
+			for b := 0; b < 0x80; b++ {
+				if u.f(rune(b)) {
+					acc = c.Or(acc, c.Eq(rt, c.BV(rt.Width, uint64(b))))
+				}
+			}
+			return m.normBool(acc)
+		})
+	}
+	type umap struct {
+		name string
+		f    func(rune) rune
+	}
+	for _, u := range []umap{{"ToLower", unicode.ToLower}, {"ToUpper", unicode.ToUpper}, {"ToTitle", unicode.ToTitle}} {
+		u := u
+		reg("unicode."+u.name, func(m *Machine, fn *ssa.Function, a []Value) Value {
+			if r, ok := a[0].(int64); ok {
+				return int64(u.f(rune(r)))
+			}
+			rt := a[0].(*sym.Term)
+			c := m.C
+			if !m.provable(c.Ult(rt, c.BV(rt.Width, 0x80))) {
+				m.unsupported("unicode.%s of a symbolic rune that may be >= 0x80", u.name)
+			}
+			acc := rt
+			for b := 0; b < 0x80; b++ {
+				if u.f(rune(b)) != rune(b) {
+					acc = c.Ite(c.Eq(rt, c.BV(rt.Width, uint64(b))), c.BV(rt.Width, uint64(u.f(rune(b)))), acc)
+				}
+			}
+			return m.normScalar(acc)
+		})
+	}
 }
